@@ -73,6 +73,37 @@ mut("rev-F12-upgrade-no-trace", "break", ["C02", "C05"], "is_not_destructed gran
 mut("F12-upgrade-stale-stamp", "break", ["C02"], "is_not_destructed stamps the epoch field it found instead of the current epoch",
     [ed(U, "                old.with_epoch(epoch)\n            };", "                old.with_epoch(old.epoch() as usize)\n            };\n            let _ = epoch;")],
     ["CW-UPGRADE-TRACE"])
+mut("rev-F13-unpin-repins-ungated", "break", ["C02", "C16"], "the collecting loop re-pins without looking at the guard count",
+    [ed(I, "                self.repin_unless_foreign_guards(0);", "                self.repin_without_collect();")],
+    ["EBR-COLLECT-OUTERMOST"])
+mut("F13-dgn-wrong-own", "break", ["C02", "C16"], "the cascade claims no guard of its own when re-pinning",
+    [ed(U, "local.repin_unless_foreign_guards(1);", "local.repin_unless_foreign_guards(2);")], ["EBR-COLLECT-OUTERMOST"])
+mut("rev-F15-per-participant-flag", "break", ["C07", "C20"], "unpin no longer tests the thread-wide collecting flag",
+    [ed(I, "if guard_count == 1 && !self.collecting.get() && !THREAD_COLLECTING.with(Cell::get) {",
+        "if guard_count == 1 && !self.collecting.get() {")], ["REC-COLLECT-REENTRY"])
+mut("rev-F16-advance-reenters", "break", ["C07", "C18", "C20"], "incr_advance re-enters try_advance again",
+    [ed(I, """        if advance_count % Self::COUNTS_BETWEEN_ADVANCE == 0 && !self.advancing.replace(true) {
+            self.global().try_advance(guard);
+            self.advancing.set(false);
+        }""", """        if advance_count % Self::COUNTS_BETWEEN_ADVANCE == 0 {
+            self.global().try_advance(guard);
+        }""")], ["REC-NO-UNBOUNDED"])
+mut("F16-flag-never-set", "break", ["C07", "C18", "C20"], "incr_advance tests the advancing flag but never sets it",
+    [ed(I, "!self.advancing.replace(true) {", "!self.advancing.get() {")], ["REC-NO-UNBOUNDED"])
+mut("rev-F17-stale-window", "break", ["C02", "C12"], "the cascade merges a child's stamps in the frame's entry window again",
+    [ed(U, "                let modu: Modular<EPOCH_WIDTH> = Modular::new(global_epoch() as isize + 1);\n                let next_epoch =",
+        "                let next_epoch =")], ["CW-WINDOW-FRESH"])
+mut("ok-F14-unpin-scopeguard", "benign", [], "unpin restores its state from a scope guard (also on unwind)",
+    [ed(I, """            self.collecting.set(false);
+            THREAD_COLLECTING.with(|c| c.set(false));
+        }
+
+        // Read the count again""", """            self.collecting.set(false);
+            THREAD_COLLECTING.with(|c| c.set(false));
+        }
+        let _noop = scopeguard::guard((), |_| {});
+
+        // Read the count again""")])
 mut("rev-F6-epoch-before-pin", "break", ["C02"], "decrement_strong reads the epoch before pinning",
     [ed(U, """        let local_guard;
         let guard = match guard {
@@ -686,7 +717,7 @@ mut("ok-rec-edges-filter", "benign", [], "the edge loop filters null edges with 
 """, """        for next in outgoings.drain(..).filter(|next| !next.is_null()) {
 """)])
 mut("rec-collect-reentrant", "break", ["C07"], "unpin collects even while a collection is running (flag not tested)",
-    [ed(I, "if guard_count == 1 && !self.collecting.get() {", "if guard_count == 1 {")], ["REC-COLLECT-REENTRY"])
+    [ed(I, "if guard_count == 1 && !self.collecting.get() && !THREAD_COLLECTING.with(Cell::get) {", "if guard_count == 1 {")], ["REC-COLLECT-REENTRY"])
 mut("rec-collecting-cleared-in-schedule", "break", ["C07"], "schedule_collection clears the collecting flag",
     [ed(I, """        self.must_collect.set(true);
     }
@@ -742,7 +773,7 @@ mut("rev-F11-stale-guard-count", "break", ["C16"], "unpin writes back the count 
         let guard_count = self.guard_count.get();
 """, "")], ["EBR-GUARD-COUNT"])
 mut("ebr-collect-nested", "break", ["C02", "C13", "C16"], "unpin collects for nested guards too",
-    [ed(I, "if guard_count == 1 && !self.collecting.get() {", "if !self.collecting.get() {")], ["EBR-COLLECT-OUTERMOST"])
+    [ed(I, "if guard_count == 1 && !self.collecting.get() && !THREAD_COLLECTING.with(Cell::get) {", "if !self.collecting.get() && !THREAD_COLLECTING.with(Cell::get) {")], ["EBR-COLLECT-OUTERMOST"])
 mut("ebr-unpin-clears-always", "break", ["C16", "C13"], "unpin clears the local epoch for nested guards",
     [ed(I, """        self.guard_count.set(guard_count - 1);
         if guard_count == 1 {
@@ -874,11 +905,11 @@ mut("ebr-epoch-wrapping-sub-pinbit", "break", ["C14", "C13"], "wrapping_sub no l
 
 mut("ebr-unpin-clear-before-collect", "break", ["C13", "C16"], "unpin clears the local epoch before collecting",
     [ed(I, """        let guard_count = self.guard_count.get();
-        if guard_count == 1 && !self.collecting.get() {""", """        let guard_count = self.guard_count.get();
+        if guard_count == 1 && !self.collecting.get() && !THREAD_COLLECTING.with(Cell::get) {""", """        let guard_count = self.guard_count.get();
         if guard_count == 1 {
             self.epoch.store(Epoch::starting(), Ordering::Release);
         }
-        if guard_count == 1 && !self.collecting.get() {"""),
+        if guard_count == 1 && !self.collecting.get() && !THREAD_COLLECTING.with(Cell::get) {"""),
      ed(I, """                debug_assert!(self.epoch.load(Ordering::Relaxed).is_pinned());
 """, "")], ["EBR-COLLECT-OUTERMOST", "EBR-GUARD-COUNT"])
 mut("ebr-tls-fallback-other-collector", "break", ["C20"], "with_handle's fallback registers with a fresh collector",
@@ -1118,31 +1149,35 @@ mut("ok-state-strong-no-div", "benign", ["C12"], "State::strong without the divi
 mut("ok-with-tag-inline", "benign", ["C11"], "Tagged::with_tag written inline",
     [ed(PT, "Self::from(with_tag(self.ptr, tag))", "Self::from(((self.ptr as usize & !low_bits::<T>()) | (tag & low_bits::<T>())) as *mut T)")])
 mut("ok-unpin-early-return", "benign", ["C16", "C13"], "unpin restructured with nested ifs",
-    [ed(I, """        if guard_count == 1 && !self.collecting.get() {
+    [ed(I, """        if guard_count == 1 && !self.collecting.get() && !THREAD_COLLECTING.with(Cell::get) {
             self.collecting.set(true);""", """        if guard_count == 1 {
-          if !self.collecting.get() {
+          if !self.collecting.get() && !THREAD_COLLECTING.with(Cell::get) {
             self.collecting.set(true);"""),
-     ed(I, """            self.collecting.set(false);
+     ed(I, """            THREAD_COLLECTING.with(|c| c.set(false));
         }
 
-        // Read the count again""", """            self.collecting.set(false);
+        // Read the count again""", """            THREAD_COLLECTING.with(|c| c.set(false));
           }
         }
 
         // Read the count again""")])
 mut("unpin-cold-path-stale-count", "break", ["C16"], "unpin's collection loop hoisted into a #[cold] helper that sets guard_count to 0 after the collection (F11 again: a guard created by a destructor is not counted)",
-    [ed(I, """        if guard_count == 1 && !self.collecting.get() {
+    [ed(I, """        if guard_count == 1 && !self.collecting.get() && !THREAD_COLLECTING.with(Cell::get) {
             self.collecting.set(true);
+            THREAD_COLLECTING.with(|c| c.set(true));
             while self.must_collect.get() {
                 self.must_collect.set(false);
                 debug_assert!(self.epoch.load(Ordering::Relaxed).is_pinned());
                 let guard = ManuallyDrop::new(Guard { local: self });
                 self.global().collect(&guard);
-                self.repin_without_collect();
+                // A destructor may have created a guard that is still alive (parked or leaked);
+                // the `Snapshot`s loaded through it rely on the current local epoch.
+                self.repin_unless_foreign_guards(0);
             }
             self.collecting.set(false);
+            THREAD_COLLECTING.with(|c| c.set(false));
         }
-""", """        if guard_count == 1 && self.must_collect.get() && !self.collecting.get() {
+""", """        if guard_count == 1 && self.must_collect.get() && !self.collecting.get() && !THREAD_COLLECTING.with(Cell::get) {
             return self.unpin_and_collect();
         }
 """),
@@ -1151,13 +1186,15 @@ mut("unpin-cold-path-stale-count", "break", ["C16"], "unpin's collection loop ho
     pub(crate) fn repin(&self) {""", """    #[cold]
     fn unpin_and_collect(&self) {
         self.collecting.set(true);
+        THREAD_COLLECTING.with(|c| c.set(true));
         while self.must_collect.get() {
             self.must_collect.set(false);
             let guard = ManuallyDrop::new(Guard { local: self });
             self.global().collect(&guard);
-            self.repin_without_collect();
+            self.repin_unless_foreign_guards(0);
         }
         self.collecting.set(false);
+        THREAD_COLLECTING.with(|c| c.set(false));
 
         self.guard_count.set(0);
         self.epoch.store(Epoch::starting(), Ordering::Release);
@@ -1170,18 +1207,22 @@ mut("unpin-cold-path-stale-count", "break", ["C16"], "unpin's collection loop ho
     #[inline]
     pub(crate) fn repin(&self) {""")], ["EBR-GUARD-COUNT"])
 mut("ok-unpin-cold-path", "benign", ["C13", "C15", "C16", "C20"], "unpin's collection loop hoisted into a #[cold] helper that re-reads the count (finalize test kept)",
-    [ed(I, """        if guard_count == 1 && !self.collecting.get() {
+    [ed(I, """        if guard_count == 1 && !self.collecting.get() && !THREAD_COLLECTING.with(Cell::get) {
             self.collecting.set(true);
+            THREAD_COLLECTING.with(|c| c.set(true));
             while self.must_collect.get() {
                 self.must_collect.set(false);
                 debug_assert!(self.epoch.load(Ordering::Relaxed).is_pinned());
                 let guard = ManuallyDrop::new(Guard { local: self });
                 self.global().collect(&guard);
-                self.repin_without_collect();
+                // A destructor may have created a guard that is still alive (parked or leaked);
+                // the `Snapshot`s loaded through it rely on the current local epoch.
+                self.repin_unless_foreign_guards(0);
             }
             self.collecting.set(false);
+            THREAD_COLLECTING.with(|c| c.set(false));
         }
-""", """        if guard_count == 1 && self.must_collect.get() && !self.collecting.get() {
+""", """        if guard_count == 1 && self.must_collect.get() && !self.collecting.get() && !THREAD_COLLECTING.with(Cell::get) {
             return self.unpin_and_collect();
         }
 """),
@@ -1190,13 +1231,15 @@ mut("ok-unpin-cold-path", "benign", ["C13", "C15", "C16", "C20"], "unpin's colle
     pub(crate) fn repin(&self) {""", """    #[cold]
     fn unpin_and_collect(&self) {
         self.collecting.set(true);
+        THREAD_COLLECTING.with(|c| c.set(true));
         while self.must_collect.get() {
             self.must_collect.set(false);
             let guard = ManuallyDrop::new(Guard { local: self });
             self.global().collect(&guard);
-            self.repin_without_collect();
+            self.repin_unless_foreign_guards(0);
         }
         self.collecting.set(false);
+        THREAD_COLLECTING.with(|c| c.set(false));
 
         let guard_count = self.guard_count.get();
         self.guard_count.set(guard_count - 1);
@@ -1212,18 +1255,22 @@ mut("ok-unpin-cold-path", "benign", ["C13", "C15", "C16", "C20"], "unpin's colle
     #[inline]
     pub(crate) fn repin(&self) {""")])
 mut("unpin-cold-path-no-finalize", "break", ["C20", "C15"], "same refactoring without the finalize test on the slow path (independent seed S-C20-1)",
-    [ed(I, """        if guard_count == 1 && !self.collecting.get() {
+    [ed(I, """        if guard_count == 1 && !self.collecting.get() && !THREAD_COLLECTING.with(Cell::get) {
             self.collecting.set(true);
+            THREAD_COLLECTING.with(|c| c.set(true));
             while self.must_collect.get() {
                 self.must_collect.set(false);
                 debug_assert!(self.epoch.load(Ordering::Relaxed).is_pinned());
                 let guard = ManuallyDrop::new(Guard { local: self });
                 self.global().collect(&guard);
-                self.repin_without_collect();
+                // A destructor may have created a guard that is still alive (parked or leaked);
+                // the `Snapshot`s loaded through it rely on the current local epoch.
+                self.repin_unless_foreign_guards(0);
             }
             self.collecting.set(false);
+            THREAD_COLLECTING.with(|c| c.set(false));
         }
-""", """        if guard_count == 1 && self.must_collect.get() && !self.collecting.get() {
+""", """        if guard_count == 1 && self.must_collect.get() && !self.collecting.get() && !THREAD_COLLECTING.with(Cell::get) {
             return self.unpin_and_collect();
         }
 """),
@@ -1232,13 +1279,15 @@ mut("unpin-cold-path-no-finalize", "break", ["C20", "C15"], "same refactoring wi
     pub(crate) fn repin(&self) {""", """    #[cold]
     fn unpin_and_collect(&self) {
         self.collecting.set(true);
+        THREAD_COLLECTING.with(|c| c.set(true));
         while self.must_collect.get() {
             self.must_collect.set(false);
             let guard = ManuallyDrop::new(Guard { local: self });
             self.global().collect(&guard);
-            self.repin_without_collect();
+            self.repin_unless_foreign_guards(0);
         }
         self.collecting.set(false);
+        THREAD_COLLECTING.with(|c| c.set(false));
 
         self.guard_count.set(0);
         self.epoch.store(Epoch::starting(), Ordering::Release);
@@ -1510,7 +1559,7 @@ combo("R6-4-release-zero", ["C01", "C04"], "Rc::drop releases 0 shares through t
 combo("R6-5-remain-not-updated", ["C10"], "NewRcIter::next no longer writes the decremented remain back", "R6-5",
       [ed(S, "        self.remain = left;\n", "        let _ = left;\n")], ["OWN-BALANCE"])
 combo("R7-2-flag-not-set", ["C07", "C16"], "unpin tests the collecting flag without setting it", "R7-2",
-      [ed(I, "if !self.collecting.replace(true) {", "if !self.collecting.get() {")],
+      [ed(I, "if !THREAD_COLLECTING.with(Cell::get) && !self.collecting.replace(true) {", "if !THREAD_COLLECTING.with(Cell::get) && !self.collecting.get() {")],
       ["REC-COLLECT-REENTRY", "EBR-COLLECT-OUTERMOST"])
 combo("R6-1-no-ptr-eq-retry", ["C08"], "the generic CAS helper reports an epoch-only difference as a failure", "R6-1",
       [ed(S, """                    if current_raw.ptr_eq(expected_raw) {
